@@ -83,7 +83,10 @@ def tree(e, model=None, mod=None, params=(), cls=None):
                 return _mk(name, *args)
             return (name,) + tuple(args)
         if full == 'synapgrad.tensor.Tensor' and e.args:
-            return tree(e.args[0], model, mod, params, cls)      # Tensor(scalar) wrapping keeps the value
+            if len(e.args) == 1 and not [k for k in e.keywords if k.arg not in ('requires_grad', 'device', 'name')]:
+                return tree(e.args[0], model, mod, params, cls)      # Tensor(scalar) wrapping keeps the value
+            # a dtype / extra argument may change the wrapped VALUE (e.g. dtype=self.dtype truncates a float scalar for an integer tensor)
+            return ('wrap', tree(e.args[0], model, mod, params, cls)) + tuple(sorted((k.arg or '**', norm(k.value)) for k in e.keywords)) + tuple(('arg', norm(a)) for a in e.args[1:])
         inl = _inline_method(e, model, mod, cls)
         if inl is not None:
             return tree(inl, model, mod, params, cls)
